@@ -3,7 +3,7 @@
 -/
 import GIV.Lemmas.ParWorkInv
 namespace GIV.ParWork
-open GIV.Gen.Par
+open GIV.Gen.ParWork
 
 @[simp] theorem upd_apply' (f : Nat → Pc) (t : Nat) (p : Pc) (i : Nat) : upd f t p i = if i = t then p else f i := rfl
 
